@@ -342,3 +342,17 @@ func verifLemmaUint32RoundTrip(schema *schema_j5pb.Field, pv protoreflect.Value)
 //@   ensures int64: intFmt(schema, schema_j5pb.IntegerField_FORMAT_INT64) ==> ((result1 == nil) <==> (astInt(value) && 0 - 9223372036854775808 <= astIntVal(value) && astIntVal(value) <= 9223372036854775807)) && (result1 == nil ==> pvNum(result0) == astIntVal(value))
 //@   ensures uint32: intFmt(schema, schema_j5pb.IntegerField_FORMAT_UINT32) ==> ((result1 == nil) <==> (astInt(value) && 0 <= astIntVal(value) && astIntVal(value) <= 4294967295)) && (result1 == nil ==> pvNum(result0) == astIntVal(value))
 //@   ensures uint64: intFmt(schema, schema_j5pb.IntegerField_FORMAT_UINT64) ==> ((result1 == nil) <==> (astInt(value) && 0 <= astIntVal(value) && astIntVal(value) <= 18446744073709551615)) && (result1 == nil ==> pvNum(result0) == astIntVal(value))
+
+// ---- enum members (C03): a name is stored as the number of the option so named, or rejected -------------
+// (with or without the schema's prefix: optNamed). What reaches the proto value is the number
+// of an option of the schema whose name matches; a name no option carries is an error, never a default.
+//@ spec func enumOf(f *j5schema.EnumField) *j5schema.EnumSchema = as(*j5schema.EnumSchema, f.Ref.To)
+//@ func (*enumField).SetFromString
+//@   ensures rejected: (forall i int {enumOf(ef.schema).Options[i]} :: 0 <= i && i < len(enumOf(ef.schema).Options) ==> !optNamed(enumOf(ef.schema).Options[i], val, enumOf(ef.schema).NamePrefix)) ==> result != nil
+//@   assert at setValue#0 number: option != nil && optNamed(option, val, enumOf(ef.schema).NamePrefix) && pvValid(arg0) && pvNum(arg0) == option.number
+//@ func (*arrayOfEnumField).AppendEnumFromString
+//@   ensures rejected: (forall i int {field.itemSchema.Options[i]} :: 0 <= i && i < len(field.itemSchema.Options) ==> !optNamed(field.itemSchema.Options[i], name, field.itemSchema.NamePrefix)) ==> result1 != nil
+//@   assert at appendProtoValue#0 number: option != nil && optNamed(option, name, field.itemSchema.NamePrefix) && pvValid(arg1) && pvNum(arg1) == option.number
+//@ func (*mapOfEnumField).SetEnum
+//@   ensures rejected: (forall i int {field.itemSchema.Options[i]} :: 0 <= i && i < len(field.itemSchema.Options) ==> !optNamed(field.itemSchema.Options[i], value, field.itemSchema.NamePrefix)) ==> result != nil
+//@   assert at setKey#0 number: option != nil && optNamed(option, value, field.itemSchema.NamePrefix) && arg1 == key && pvValid(arg2) && pvNum(arg2) == option.number
